@@ -926,6 +926,8 @@ class Interp:
             return self.arr_fancy(a, idx)
         if isinstance(idx, (list,)):
             return self.arr_fancy(a, self.list_to_arr(idx, 'int'))
+        if isinstance(idx, tuple) and len(idx) == 2 and a.kind == 'U' and isinstance(idx[1], slice) and idx[1] == slice(None, None, None):
+            return self.arr_getitem(a, idx[0])       # rows of a matrix kept as opaque rows: m[sel, :] selects rows
         if isinstance(idx, tuple):
             raise Unsupported('multi-dimensional indexing')
         i = self.norm_index(idx, a.n)
@@ -1031,6 +1033,8 @@ class Interp:
                 self._view_write(obj)
             if isinstance(idx, SArr) and idx.kind == 'int' and obj.np and len(obj.leaves) == 1:
                 return self.arr_scatter(obj, idx, val)
+            if isinstance(idx, slice) and obj.np and len(obj.leaves) == 1:
+                return self.arr_slice_assign(obj, idx, val)
             if isinstance(idx, (slice, SArr, tuple, list)):
                 raise Unsupported('slice/fancy assignment')
             i = self.norm_index(idx, obj.n)
@@ -1051,6 +1055,26 @@ class Interp:
                 self.call_function(m, [idx, val], {})
                 return
         raise Unsupported(f'item assignment on {type(obj).__name__}')
+
+    def arr_slice_assign(self, obj, sl, val):
+        """numpy: a[lo:hi] = v  for a 1-D array; v a scalar (broadcast) or a 1-D array of exactly hi - lo elements
+        (anything else is numpy's "could not broadcast" ValueError; length-1 arrays are not broadcast here)"""
+        lo, hi = self.slice_bounds(sl, obj.n)
+        k = z3.Int('k!sa')
+        old = obj.leaves[0]
+        if isinstance(val, (SArr, list)):
+            if isinstance(val, list):
+                val = self.list_to_arr(val, obj.kind, np=True)
+            if len(val.leaves) != 1:
+                raise Unsupported('slice assignment of an array of tuples')
+            same = z3.simplify(to_z3(val.n) == hi - lo)
+            if not _is_true(same):
+                if self.branch(z3.Not(same)):
+                    raise PyRaise('ValueError')
+            new = z3.Select(val.leaves[0], k - lo)
+        else:
+            new = to_z3(self.flat_elem(val, obj.kind)[0])
+        obj.leaves = [z3.Lambda([k], z3.If(z3.And(lo <= k, k < hi), new, z3.Select(old, k)))]
 
     def arr_scatter(self, obj, idx, val):
         """numpy `a[idx] = val` for 1-D integer index array idx (assumed contract of numpy fancy assignment):
@@ -1123,6 +1147,12 @@ class Interp:
     # numpy-like elementwise operations on SArr (Lambda-defined arrays, no quantified axioms)
     def arr_binop(self, op, a, b):
         k = z3.Int('k!ew')
+        # an array of opaque rows times the concrete sign +1 / -1 (charges * qconj): itself / its element-wise negation
+        for x, y in ((a, b), (b, a)):
+            if isinstance(x, SArr) and x.kind == 'U' and isinstance(op, ast.Mult) and isinstance(y, int) and not isinstance(y, bool) and y in (1, -1):
+                return SArr(x.n, list(x.leaves), 'U', True) if y == 1 else self.arr_unop(ast.USub(), x)
+        if any(isinstance(x, SArr) and x.kind == 'U' for x in (a, b)) and not isinstance(op, ast.cmpop):
+            raise Unsupported('arithmetic on an array of opaque rows')
 
         def el(x):
             if isinstance(x, SArr):
@@ -1156,6 +1186,9 @@ class Interp:
     def arr_unop(self, op, a):
         k = z3.Int('k!ew')
         e = z3.Select(a.leaves[0], k)
+        if a.kind == 'U' and isinstance(op, ast.USub):
+            # -x on an array of opaque rows: element-wise, the same uninterpreted negation as for a single opaque value
+            return SArr(a.n, [z3.Lambda([k], z3.Function('neg!U', U, U)(e))], 'U', True)
         r = self.unaryop(op, e)
         return SArr(a.n, [z3.Lambda([k], to_z3(r))], kind_of_scalar(r), True)
 
